@@ -12,6 +12,7 @@ Inductive pat := PStr (s : str) | PMark (m : N).
 
 Definition tok_marks (t : tok) : N := match t with Leaf _ m => m | Group k _ => group_marks k end.
 Definition tok_children (t : tok) : list tok := match t with Leaf _ _ => [] | Group _ ts => ts end.
+Definition is_group (t : tok) : bool := match t with Leaf _ _ => false | Group _ _ => true end.
 Definition has_mark (t : tok) (m : N) : bool := negb (N.eqb (N.land (tok_marks t) m) 0).
 (* AMTBase.equals / AMTParenthesisBase.equals *)
 Definition tok_equals (t : tok) (p : pat) : bool :=
@@ -101,9 +102,12 @@ Definition step (c : cursor) (o : cop) : cursor * cout :=
   | OGetSource => (c, COk (CVStr (option_map source (at_off c 0))))
   | OPopSource => match at_off c 0 with Some t => (moved c 1, COk (CVStr (Some (source t)))) | None => (c, CErr ParseErr) end
   | OGetChildren => (c, match at_off c 0 with Some t => COk (CVScanner (tok_children t)) | None => CErr ParseErr end)
-  | OPopChildren => match at_off c 0 with Some t => (moved c 1, COk (CVScanner (tok_children t))) | None => (c, CErr ParseErr) end
+  | OPopChildren => match at_off c 0 with
+                    | Some t => if is_group t then (moved c 1, COk (CVScanner (tok_children t))) else (c, CErr ParseErr)
+                    | None => (c, CErr ParseErr)
+                    end
   | OPopSplit s => match at_off c 0 with
-                   | Some t => (moved c 1, COk (CVScanners (split_by (tok_children t) s [])))
+                   | Some t => if is_group t then (moved c 1, COk (CVScanners (split_by (tok_children t) s []))) else (c, CErr ParseErr)
                    | None => (c, CErr ParseErr)
                    end
   | OIsFinish => (c, COk (CVBool (Nat.leb (len c) (pos c))))
